@@ -7,7 +7,9 @@ proofs : lean/PyAbel/Props/C15.lean (cos^n ↔ cos^n sin^m identity for up to fi
          result of a radial bin depends only on the multiset of its pixel contributions — pixel order, storage layout and
          the left-right mirror are immaterial; the top-bottom mirror flips the sign of the odd terms for 1, 2 and 3 angular
          terms; weight scaling for 3 terms)
-K      : the conversion matrices used by Results.cossin() / harmonics() vs the exact Lean tables; cossin / harmonics / Ibeta
+K      : Results.Ibeta(window) vs the Lean model of the windowed anisotropy (Model/Window.lean, driver op ibeta; theorems in
+         Props/C15Window.lean: a radius-independent anisotropy survives any window, the mask is the averaged P0, window 1 is the ratio);
+         the conversion matrices used by Results.cossin() / harmonics() vs the exact Lean tables; cossin / harmonics / Ibeta
          of random coefficient arrays vs the model matrices
 S      : all representations evaluate to the same angular function at random θ; I = 4πr²P0, β_n = P_n/P0 (window 1) and the
          moving average for windows > 1; invariances of Distributions results: left-right mirror, top-bottom mirror (odd
@@ -67,6 +69,39 @@ def correspondence(ck, tier):
             if not np.array_equal(cs, want) and np.abs(cs - want).max() > 1e-13:
                 ck.disagree("K.representations", case, "cossin() differs from the flipped-Pascal table")
     ck.sample(dict(suite="K.representations", harm_even_3=model_harm(False, 3).tolist()))
+    # Results.Ibeta(window)[1:] vs the Lean model of the windowed anisotropy (Model/Window.lean: centred moving average of the harmonics
+    # with the end samples repeated, masked by the averaged P0; theorems in Props/C15Window.lean) — odd and even windows, windows longer
+    # than the array, radii without data.  (Where a whole window is without data the implementation divides two rounding residues of
+    # scipy's running mean; the angular function is zero there whatever β is, and those positions are not compared.)
+    from harness.common import arr2h, drive, h2arr
+    lines, refs = [], []
+    for it in range(40 if tier == "quick" else 400):
+        order = int(rng.choice([2, 4, 6, 3]))
+        odd = order % 2 == 1
+        terms = 1 + (order if odd else order // 2)
+        n = int(rng.integers(3, 15))
+        H = model_harm(odd, terms)
+        harm_target = rng.normal(size=(terms, n))
+        harm_target[0] = rng.uniform(0.5, 2.0, size=n)
+        cn = np.linalg.solve(H, harm_target)
+        if it % 2:
+            cn[:, rng.choice(n, size=int(rng.integers(1, max(2, n // 2))), replace=False)] = 0.0
+        R = results(cn, order, odd)
+        w = int(rng.choice([1, 2, 3, 4, 5, 6, 7, 9, n + 2]))
+        harm = quiet(R.harmonics)
+        lines.append(f"ibeta {w} {n} {terms} {arr2h(harm)}")
+        refs.append((w, n, terms, harm, quiet(R.Ibeta, w)[1:]))
+    for out, (w, n, terms, harm, got) in zip(drive(lines), refs):
+        ck.count(("K.ibeta", w, terms, bool((harm[0] == 0).any())), suite="K.window")
+        case = dict(window=w, n=n, terms=terms, harmonics=harm.tolist())
+        if not out.startswith("ok"):
+            ck.disagree("K.window", case, f"model refused: {out[:80]}")
+            continue
+        model = h2arr(out.split()[3:]).reshape(terms - 1, n)
+        idx = np.clip(np.arange(n)[:, None] + np.arange(w)[None, :] - w // 2, 0, n - 1)
+        live = (harm[0][idx] != 0).any(axis=1) if w > 1 else np.ones(n, bool)
+        if np.abs(model[:, live] - got[:, live]).max(initial=0.0) > 1e-11 * max(1.0, np.abs(got[:, live]).max(initial=0.0)):
+            ck.disagree("K.window", case, f"Ibeta(window={w}) differs from the Lean model by {np.abs(model[:, live] - got[:, live]).max():.3g}")
 
 
 def eval_cos(cn, orders, th):
@@ -347,6 +382,7 @@ def run(tier):
     ck.cov["source_fingerprint"] = source_fingerprint(["abel/tools/vmi.py"])
     ck.proofs("PyAbel.Props.C15")
     ck.proofs("PyAbel.Props.C15Mirror")
+    ck.proofs("PyAbel.Props.C15Window")
     ok, log = ensure_driver()
     if ok:
         correspondence(ck, tier)
